@@ -19,10 +19,25 @@ use std::time::Instant;
 
 const CONFIGS: [(&str, bool); 4] = [("--cats", false), ("--bss", false), ("--cats", true), ("--bss", true)];
 
-fn scratch() -> String {
-    let d = format!("/verif/target/scratch/c06-{}-{}", std::process::id(), rayon::current_thread_index().unwrap_or(99));
+/// a scratch directory of its own for every call: NOT one per worker thread — `-p` runs a nested parallel section, and
+/// a pool thread waiting in it picks up another case of the sweep, which would overwrite the suspended case's circuit file
+/// (seen as non-reproducible wrong answers on 7-qubit circuits, see DESIGN section 8)
+struct ScratchDir(String);
+impl Drop for ScratchDir {
+    fn drop(&mut self) {
+        let _ = std::fs::remove_dir_all(&self.0);
+    }
+}
+impl std::fmt::Display for ScratchDir {
+    fn fmt(&self, f: &mut std::fmt::Formatter<'_>) -> std::fmt::Result {
+        f.write_str(&self.0)
+    }
+}
+fn scratch() -> ScratchDir {
+    static NEXT: std::sync::atomic::AtomicU64 = std::sync::atomic::AtomicU64::new(0);
+    let d = format!("/verif/target/scratch/c06-{}-{}", std::process::id(), NEXT.fetch_add(1, std::sync::atomic::Ordering::Relaxed));
     let _ = std::fs::create_dir_all(&d);
-    d
+    ScratchDir(d)
 }
 
 /// state C|0..0> as complex floats (exact when possible)
@@ -108,6 +123,11 @@ pub fn judge_queries(st: &mut Stats, c: &Circuit, only: Option<&Value>) {
     for (method, par) in CONFIGS {
         // amplitudes
         let mut bit_queries: Vec<String> = (0..(1usize << q)).map(|b| (0..q).map(|i| if (b >> (q - 1 - i)) & 1 == 1 { '1' } else { '0' }).collect()).collect();
+        if q > 4 {
+            // wide circuits: a fixed selection instead of all 2^q strings (all-zero, all-one, alternating, one-hot ends)
+            let pick = |f: &dyn Fn(usize) -> bool| -> String { (0..q).map(|i| if f(i) { '1' } else { '0' }).collect() };
+            bit_queries = vec![pick(&|_| false), pick(&|_| true), pick(&|i| i % 2 == 0), pick(&|i| i == 0), pick(&|i| i == q - 1), pick(&|i| i % 3 == 1)];
+        }
         if q > 1 {
             bit_queries.push("0".into());
             bit_queries.push("1".into());
@@ -138,7 +158,12 @@ pub fn judge_queries(st: &mut Stats, c: &Circuit, only: Option<&Value>) {
         }
         // expectation values
         let letters = ['I', 'X', 'Y', 'Z'];
-        let mut pq: Vec<String> = (0..4usize.pow(q as u32)).map(|mut k| (0..q).map(|_| { let ch = letters[k % 4]; k /= 4; ch }).collect()).collect();
+        let mut pq: Vec<String> = if q > 4 {
+            let pick = |f: &dyn Fn(usize) -> char| -> String { (0..q).map(f).collect() };
+            vec![pick(&|i| if i == 0 { 'Z' } else { 'I' }), pick(&|i| if i == q - 1 { 'X' } else { 'I' }), pick(&|i| ['X', 'Y', 'Z', 'I'][i % 4]), pick(&|i| if i % 2 == 0 { 'Y' } else { 'Z' })]
+        } else {
+            (0..4usize.pow(q as u32)).map(|mut k| (0..q).map(|_| { let ch = letters[k % 4]; k /= 4; ch }).collect()).collect()
+        };
         if q > 1 {
             for l in letters {
                 pq.push(l.to_string());
@@ -401,6 +426,48 @@ pub fn run(rep: &mut Report) {
             watch_end();
         });
         rep.absorb(&format!("queries {}", name), &format!("every circuit with <= {} gates over {} gate instances on {} qubits (idle qubits included): all 2^q bit strings + broadcast 0/1, all 4^q Pauli strings + broadcast I/X/Y/Z/z, methods --cats/--bss, with and without -p 2", d, alpha.len(), q), true, None, t0, stats);
+    }
+    // cat-state circuits: H^n ; T on the legs ; CZ from a hub qubit to every leg (a cat state for the decomposer), every
+    // set of extra CZ gates among the first legs (legs already adjacent) and to one surrounding qubit ; H^n. Wide circuits:
+    // a fixed selection of queries, both methods, with and without -p
+    {
+        let t0 = Instant::now();
+        let mut fam: Vec<Circuit> = vec![];
+        for legs in if quick { vec![5usize] } else { vec![4, 5, 6] } {
+            let n = legs + 2; // hub 0, legs 1..=legs, one surrounding qubit
+            let extra: Vec<(usize, usize)> = vec![(1, 2), (2, 3), (3, 4), (n - 1, 1), (n - 1, legs), (1, 3)];
+            for mask in 0..(1u32 << (extra.len() + 1)) {
+                let mut c = Circuit::new(n);
+                for i in 0..n {
+                    c.push(g1(HAD, i));
+                }
+                for i in 1..=legs {
+                    c.push(g1(T, i));
+                }
+                // the surrounding qubit with or without a T of its own
+                if (mask >> extra.len()) & 1 == 1 {
+                    c.push(g1(T, n - 1));
+                }
+                for i in 1..=legs {
+                    c.push(Gate::new(CZ, vec![0, i]));
+                }
+                for (k, &(a, b)) in extra.iter().enumerate() {
+                    if (mask >> k) & 1 == 1 && a != b && a < n && b < n {
+                        c.push(Gate::new(CZ, vec![a.min(b), a.max(b)]));
+                    }
+                }
+                for i in 0..n {
+                    c.push(g1(HAD, i));
+                }
+                fam.push(c);
+            }
+        }
+        let stats = crate::sweep(&fam, |st, i, c| {
+            watch_begin(i as u64, 2);
+            judge_queries(st, c, None);
+            watch_end();
+        });
+        rep.absorb("queries on cat-state circuits", &format!("{} circuits on 6..8 qubits: a hub qubit CZ-connected to 4..6 T-carrying legs between two Hadamard layers, x every subset of six extra CZ gates (adjacent legs, a surrounding qubit): 8 amplitude and 9 expectation queries each, methods --cats/--bss, with and without -p 2", fam.len()), true, None, t0, stats);
     }
     for (name, q, alpha, d) in families(quick) {
         let t0 = Instant::now();
